@@ -204,6 +204,8 @@ class Interp:
             return VStruct(a.sort, a.pycls, {k: self.ite(c, a.f[k], b.f[k]) for k in a.f})
         if isinstance(a, VAbs) and isinstance(b, VAbs):
             return VAbs(z3.If(c, a.term, b.term), a.sort)
+        if isinstance(a, VObj) and isinstance(b, VObj):
+            return VObj(z3.If(c, a.term, b.term), a.cls)
         if isinstance(a, VBox) and isinstance(b, VBox) and a.kind == b.kind:
             ta, tb = a.term, b.term
             if ta is None and tb is None:
